@@ -353,6 +353,9 @@ _check_quick = check
 def check(ctx, run):  # noqa: F811
     _check_quick(ctx, run)
     precision_rule(ctx, run)
+    from ..precision import closed_form_precision_rule
+    closed_form_precision_rule(ctx, run, "C07.R7", ["d1", "d2", "ncdf", "npdf", "bs_european_price", "bs_european_binary_price", "bs_american_binary_price", "bs_lookback_price"],
+                               "float time to maturity / volatility / strike and constants are not rounded to the default dtype")
     factory_lookup(ctx, run)
     B.default_call_is_call(ctx.prog, ctx.interp, run, "C07.R5", ["bs_european_price", "bs_european_binary_price"])
     if ctx.tier == "thorough":
